@@ -3,6 +3,7 @@
 P="$(realpath "$1")"; shift
 if ! git -C /repo diff --quiet; then echo "/repo dirty"; exit 2; fi
 git -C /repo apply "$P" || exit 2
+export VERIF_EVIDENCE_DIR=/verif/work/evidence_scratch
 for c in "$@"; do
   t0=$(date +%s); /verif/check "$c" --tier quick > /verif/work/seed.$c.out 2>&1; code=$?; t1=$(date +%s)
   echo "$c exit=$code $((t1-t0))s :: $(grep -m1 '^failure class' /verif/work/seed.$c.out | cut -c1-220)"
